@@ -141,7 +141,7 @@ pub fn check_graph(item: u64, g: &GraphSpec, desc: &str, sig: &[Vec<isize>], acc
 
 pub fn run(ctx: &Ctx) -> i32 {
     let emax = if ctx.quick() { 8 } else { 11 };
-    let n_items = ctx.n(1500, 30000);
+    let n_items = ctx.n(3000, 30000);
     let acc = par_items(ctx, "C04", n_items, |item, rng, acc| {
         for _ in 0..6 {
             let (g, desc) = gen::any_graph(rng, emax);
